@@ -443,6 +443,108 @@ def rule_r8(ctx):
         raise AnalysisBroken("no cursor computed from a ring extent in a function that replaces it")
 
 
+# ---------------------------------------------------------------------------
+# R9: the mask belongs to the storage; R10: draining is controlled by the count
+
+import re as _re   # noqa: E402
+
+
+def _effective(f, stores):
+    """the stores (positions) that can reach the exit without another store of the set intervening"""
+    pos = {(t.b, t.i) for t in stores}
+    return [t for t in stores if (f.exit, 0) in f.reach((t.b, t.i + 1), blocked=lambda b, i, e: (b, i) in pos)]
+
+
+def rule_r9(ctx):
+    r = ctx.rule("C18.R9", "T3", "the index mask belongs to the storage: a function that installs the storage of an nni_lmq (the embedded "
+                 "array or a fresh allocation of `alloc` slots) leaves lmq_mask = (number of slots - 1) on every path -- with any "
+                 "other mask two cursors alias one slot and queued messages are overwritten or returned twice", floor=2)
+    prog = ctx.prog
+    rec = prog.records.get("nni_lmq") or {}
+    n = 0
+    for f in prog.fns_in("core/lmq.c"):
+        if f.cfg_failed:
+            continue
+        st = [t for t in f.assigns() if t.node["lhs"].get("k") == "mem" and last_field(t.node["lhs"]) == "nni_lmq.lmq_msgs" and t.node.get("op") == "="]
+        if not st:
+            continue
+        masks = [t for t in f.assigns() if t.node["lhs"].get("k") == "mem" and last_field(t.node["lhs"]) == "nni_lmq.lmq_mask" and t.node.get("op") == "="]
+        for t in _effective(f, st):
+            n += 1
+            src = f.expand(t.node["rhs"])
+            want = None
+            if src is not None and src.get("k") == "mem":
+                fld = [x for x in rec.get("fields", ()) if x["n"] == src.get("f")]
+                m = _re.search(r"\[(\d+)\]", fld[0].get("t", "")) if fld else None
+                if m:
+                    want = ("const", int(m.group(1)) - 1)
+            elif src is not None and src.get("k") == "var":
+                # new_q = nni_alloc(sizeof (..) * alloc)
+                for _, d in G.var_defs(f, src["n"]):
+                    if d is not None and d.get("k") == "call" and d.get("fn") in ("nni_alloc", "nni_zalloc") and d["args"]:
+                        a = f.expand(d["args"][0])
+                        if a is not None and a.get("k") == "bin" and a["op"] == "*":
+                            for x in (a["lhs"], a["rhs"]):
+                                if x.get("k") == "var":
+                                    want = ("var", x["n"])
+            if want is None:
+                raise AnalysisBroken("%s: cannot tell how many slots %s has" % (f.name, show(src)))
+            eff = _effective(f, masks)
+            covered = masks and f.dominated_by((f.exit, 0), blocked=lambda b, i, e: (b, i) in {(m_.b, m_.i) for m_ in masks} or
+                                               (b, i) in {(c.b, c.i) for c in f.calls("nni_lmq_resize")}) or not f.reaches_exit((t.b, t.i + 1))
+            bad = None
+            for m_ in eff:
+                v = f.expand(m_.node["rhs"])
+                if want[0] == "const":
+                    ok = const_of(v) == want[1]
+                else:
+                    ok = v is not None and v.get("k") == "bin" and v["op"] == "-" and v["lhs"].get("k") == "var" and v["lhs"]["n"] == want[1] and const_of(v["rhs"]) == 1
+                if not ok:
+                    bad = m_
+            wtxt = str(want[1]) if want[0] == "const" else "%s - 1" % want[1]
+            if bad is not None or not eff:
+                ctx.fail(r, f, "lmq_mask left at %s, storage has other extent" % (show(bad.node["rhs"]) if bad is not None else "its old value"),
+                         (bad or t).line,
+                         "%s installs %s as the ring storage (line %s) but returns with lmq_mask = %s instead of %s: indices are "
+                         "wrapped with the wrong extent, so two positions of the queue share a slot"
+                         % (f.name, show(src), t.line, show(bad.node["rhs"]) if bad is not None else "(unchanged)", wtxt))
+            else:
+                r.ob(f, "storage %s line %s: lmq_mask = %s on every path" % (show(src), t.line, wtxt))
+    if n < 2:
+        raise AnalysisBroken("only %d functions install lmq storage" % n)
+
+
+def rule_r10(ctx):
+    r = ctx.rule("C18.R10", "T1", "draining is controlled by the count: nni_lmq_flush (and the drain loop of nni_lmq_fini) returns only after "
+                 "the test lmq_len > 0 has failed -- get == put cannot tell a full ring from an empty one, so a completely full "
+                 "queue would survive the flush", floor=2)
+    prog = ctx.prog
+    n = 0
+    for name in ("nni_lmq_flush", "nni_lmq_fini"):
+        f = prog.need(name, "core/lmq.c")
+        frees = [c for c in f.calls(("nni_msg_free",))]
+        if not frees:
+            raise AnalysisBroken("%s no longer releases the queued messages" % name)
+        n += 1
+        is_len = lambda m: m is not None and m.get("k") == "mem" and last_field(m) == "nni_lmq.lmq_len"
+        zero = lambda m: m is not None and const_of(m) == 0
+        edges = dict(G.rel_edges(f, is_len, zero, "<="))
+        edges.update(G.rel_edges(f, is_len, zero, "=="))
+        for b, k in G.nz_edges(f, is_len).items():
+            edges.setdefault(b, 1 - k)
+        # from the loop (any release of a message) the exit is reached only over an edge on which the count is zero
+        bad = None
+        for c in frees:
+            if (f.exit, 0) in f.reach((c.b, c.i + 1), edge_ok=lambda b, k: not (b in edges and edges[b] == k)):
+                bad = c
+        if bad is not None or not edges:
+            ctx.fail(r, f, "drain loop not controlled by lmq_len", (bad or frees[0]).line,
+                     "%s can stop releasing messages without having seen lmq_len reach zero: a ring whose cursors coincide "
+                     "because it is completely full is left as it is" % name)
+        else:
+            r.ob(f, "drain loop ends only when lmq_len is zero")
+
+
 def run(ctx):
     ctx.guard(rule_r1)
     ctx.guard(rule_r2)
@@ -450,3 +552,5 @@ def run(ctx):
     ctx.guard(rule_r5)
     ctx.guard(rule_r7)
     ctx.guard(rule_r8)
+    ctx.guard(rule_r9)
+    ctx.guard(rule_r10)
